@@ -46,12 +46,14 @@ const (
 	fPessimisticPartial
 	fAsyncLeft
 	fAsyncMissing
+	fAsyncSecondaryRolledBack
+	fAsyncPrimaryCommitted
 	nFates
 )
 
 func (f fate) String() string {
 	return [...]string{"commit-all", "commit-primary-only", "rollback-primary-only", "rollback-all", "pending-expiring",
-		"pending-alive", "pending-large", "secondaries-only", "pessimistic-only", "pessimistic-partial", "async-left", "async-missing-secondary"}[f]
+		"pending-alive", "pending-large", "secondaries-only", "pessimistic-only", "pessimistic-partial", "async-left", "async-missing-secondary", "async-secondary-rolled-back", "async-primary-committed"}[f]
 }
 
 const (
@@ -81,6 +83,7 @@ type txn struct {
 	locked      map[string]bool
 	failed      bool
 	finished    bool // the driver sent the primary's commit or rollback
+	brokenKey   string // async commit: the secondary that was never prewritten / was rolled back by the owner
 }
 
 func (t *txn) primary() []byte { return []byte(t.muts[0].key) }
@@ -133,6 +136,19 @@ func (d *driver) Lookup(startTS uint64) (ttl uint64, large, async bool) {
 		}
 	}
 	return 0, false, false
+}
+
+// Broken returns, per async-commit transaction (start ts), the secondary whose lock is missing.
+func (d *driver) Broken() map[uint64]string {
+	d.mu.Lock()
+	defer d.mu.Unlock()
+	out := map[uint64]string{}
+	for _, t := range d.txns {
+		if t.async && t.brokenKey != "" {
+			out[t.startTS] = t.brokenKey
+		}
+	}
+	return out
 }
 
 // Descr returns a copy of the history description.
@@ -381,15 +397,18 @@ func (d *driver) NewTxn(f fate) *txn {
 	d.rng.Shuffle(len(free), func(i, j int) { free[i], free[j] = free[j], free[i] })
 	n := 1 + d.rng.Intn(4)
 	switch f {
-	case fCommitPrimaryOnly, fRollbackPrimaryOnly, fSecondariesOnly, fAsyncMissing, fPessimisticPartial:
+	case fCommitPrimaryOnly, fRollbackPrimaryOnly, fSecondariesOnly, fPessimisticPartial:
 		n = 2 + d.rng.Intn(3) // these need secondaries
-	case fAsyncLeft, fPendingExpiring:
+	case fAsyncMissing, fAsyncSecondaryRolledBack, fAsyncPrimaryCommitted, fAsyncLeft:
+		n = 3 + d.rng.Intn(3) // secondaries in several regions
+	case fPendingExpiring:
 		n = 1 + d.rng.Intn(3)
 	}
 	if n > len(free) {
 		n = len(free)
 	}
-	if n < 2 && (f == fCommitPrimaryOnly || f == fRollbackPrimaryOnly || f == fSecondariesOnly || f == fAsyncMissing || f == fPessimisticPartial) {
+	if n < 2 && (f == fCommitPrimaryOnly || f == fRollbackPrimaryOnly || f == fSecondariesOnly || f == fAsyncMissing || f == fPessimisticPartial ||
+		f == fAsyncSecondaryRolledBack || f == fAsyncPrimaryCommitted) {
 		f = fCommitAll
 	}
 	t := &txn{id: len(d.txns) + 1, fate: f, locked: map[string]bool{}, ttl: ttlShort, txnSize: uint64(n)}
@@ -399,8 +418,11 @@ func (d *driver) NewTxn(f fate) *txn {
 		t.ttl = ttlAlive
 	case fPendingLarge:
 		t.ttl, t.large = ttlAlive, true
-	case fAsyncLeft, fAsyncMissing:
+	case fAsyncLeft, fAsyncMissing, fAsyncSecondaryRolledBack, fAsyncPrimaryCommitted:
 		t.async = true
+		if d.rng.Intn(10) == 0 {
+			t.ttl = ttlAlive // the owner is gone but the locks are still alive: readers wait until the clock moves on
+		}
 	case fPessimisticOnly, fPessimisticPartial:
 		t.pess = true
 		if d.rng.Intn(2) == 0 {
@@ -421,6 +443,10 @@ func (d *driver) NewTxn(f fate) *txn {
 			m.op = kvrpcpb.Op_Del
 		case x < 3 && i > 0:
 			m.op = kvrpcpb.Op_Lock
+		}
+		if t.async {
+			// unistore records the commit of a lock-only key only when it is the primary (DESIGN 5.3): puts only
+			m.op = kvrpcpb.Op_Put
 		}
 		if m.op == kvrpcpb.Op_Put {
 			m.val = d.value(t, m.key)
@@ -453,6 +479,7 @@ func (d *driver) NewTxn(f fate) *txn {
 		skip = 0
 	case fAsyncMissing:
 		skip = 1 + d.rng.Intn(len(t.muts)-1)
+		t.brokenKey = t.muts[skip].key
 	case fPessimisticPartial:
 		skip = d.rng.Intn(len(t.muts)) // one key keeps its pessimistic lock (possibly the primary)
 	}
@@ -481,6 +508,17 @@ func (d *driver) NewTxn(f fate) *txn {
 		return t
 	}
 	switch f {
+	case fAsyncSecondaryRolledBack:
+		// the owner gave up after a failed step and rolled one secondary back before it died
+		t.brokenKey = t.muts[1+d.rng.Intn(len(t.muts)-1)].key
+		d.rollback(t, t.brokenKey)
+	case fAsyncPrimaryCommitted:
+		// the owner committed the primary at max(min_commit_ts) and died before the secondaries
+		t.finished = true
+		t.commitTS = t.minCommitTS
+		if d.commit(t, t.muts[0].key) {
+			d.tss = append(d.tss, t.commitTS)
+		}
 	case fCommitAll:
 		d.finish(t, true, 1.0)
 	case fCommitPrimaryOnly:
@@ -585,6 +623,10 @@ func (d *driver) Interesting(fence uint64) []uint64 {
 }
 
 func (d *driver) pickFate(backend string) fate {
+	if backend == uni.Uni && d.rng.Intn(100) < 24 {
+		// owner-less async-commit transactions (unistore only)
+		return []fate{fAsyncLeft, fAsyncMissing, fAsyncMissing, fAsyncSecondaryRolledBack, fAsyncSecondaryRolledBack, fAsyncPrimaryCommitted}[d.rng.Intn(6)]
+	}
 	for {
 		var f fate
 		switch x := d.rng.Intn(100); {
